@@ -59,6 +59,12 @@ pub(crate) mod verif_kani_seq {
         unreachable!()
     }
 
+    // Arc::drop_slow frees the payload when the last strong reference goes away; for Record that
+    // means a recursive drop of the successor chain, which CBMC unrolls level by level (it does not
+    // constant-propagate the reference counts). Harnesses that only care about the protocol leak
+    // instead: the last reference going away frees nothing and runs no Record::drop.
+    pub(crate) fn leak_on_last_drop<T: ?Sized, A: std::alloc::Allocator>(_this: &mut std::sync::Arc<T, A>) {}
+
     /// Stub target: force the portable implementation (hardware dispatch uses cpuid + OnceLock).
     pub(crate) fn stub_crc32c_impl() -> Crc32c {
         crc32c_sw
